@@ -32,16 +32,17 @@ def main():
     demo = os.path.join(a.src, "demo_test.go")
     props = (a.props.split(",") if a.props else [meta["property"]])
     out = dict(meta)
-    rc, o = sh("git -C /repo diff --quiet")
-    if rc != 0:
-        print("/repo dirty"); sys.exit(2)
     if not a.skip_confirm:
         wt = "/tmp/sc-%s-%d" % (a.name, os.getpid())
         sh("git -C /repo worktree add --detach %s HEAD -q" % wt)
         try:
             ddir = os.path.join(wt, meta.get("demo_dir", "openflow13"))
             shutil.copy(demo, os.path.join(ddir, "zz_seed_demo_test.go"))
-            run = meta["demo_run"]
+            import re
+            mm = re.search(r"go test[^()]*", meta["demo_run"])
+            run = mm.group(0).strip() if mm else meta["demo_run"]
+            if "-race" in meta["demo_run"] and "-race" not in run:
+                run = run.replace("go test", "go test -race", 1)
             rc0, o0 = sh(run, cwd=wt)
             rca, oa = sh("git apply %s" % patch, cwd=wt)
             if rca != 0:
@@ -60,19 +61,24 @@ def main():
         finally:
             sh("git -C /repo worktree remove --force %s" % wt)
             sh("go clean -testcache")
-    # run the checks against /repo with the patch applied
-    rc, o = sh("git -C /repo apply %s" % patch)
-    if rc != 0:
-        print("apply to /repo failed", o); sys.exit(3)
+    # run the checks against a scratch worktree with the patch applied (same driver, --repo)
+    wt2 = "/tmp/scr-%s-%d" % (a.name, os.getpid())
+    sh("git -C /repo worktree add --detach %s HEAD -q" % wt2)
     res = {}
     try:
+        rc, o = sh("git apply %s" % patch, cwd=wt2)
+        if rc != 0:
+            print("apply failed", o); sys.exit(3)
         for p in props:
             t0 = time.time()
-            rc, o = sh("./verif check %s --tier %s --no-evidence" % (p, a.tier), cwd=ROOT, timeout=3600)
+            rc, o = sh("./verif check %s --tier %s --no-evidence --repo %s" % (p, a.tier, wt2), cwd=ROOT, timeout=3600)
             sigs = [l.strip() for l in o.splitlines() if l.strip().startswith("sig=")]
             res[p] = dict(exit=rc, wall_s=round(time.time() - t0, 1), first_sig=(sigs[0][:300] if sigs else ""))
     finally:
-        sh("git -C /repo checkout -- .")
+        sh("git -C /repo worktree remove --force %s" % wt2)
+        import glob
+        for d in glob.glob(os.path.join(ROOT, ".build", "*" + __import__("hashlib").sha1(wt2.encode()).hexdigest()[:10] + "*")) + glob.glob(os.path.join(ROOT, ".work", "alt.*" + __import__("hashlib").sha1(wt2.encode()).hexdigest()[:10])):
+            shutil.rmtree(d, ignore_errors=True) if os.path.isdir(d) else os.remove(d)
     detected = [p for p, r in res.items() if r["exit"] == 1]
     out["checks_run"] = res
     out["tier"] = a.tier
